@@ -522,7 +522,15 @@ func hashStr(s string) int64 {
 	return h
 }
 func (c Concretizer) pick(n int, salt string) int { return int((hashStr(salt) + c.seed*7919) % int64(n)) }
+// credentials with blanks at the edges / inside (equal length, distinct, colon-free), for bindings whose configuration is set
+// directly (no environment variable or file parser between the driver and the middleware)
+var standalonePairs = [][2]string{{" adm", "adm "}, {"adm ", " adm"}, {"a b", "b a"}, {"\tqx", "qx\t"}}
+var forcedPair *[2]string
+
 func (c Concretizer) chunks(cr Cred) [2]string {
+	if forcedPair != nil {
+		return *forcedPair
+	}
 	return chunkPairs[c.pick(len(chunkPairs), "cred|"+strings.Join(cr.U, "")+"|"+strings.Join(cr.P, ""))]
 }
 func (c Concretizer) str(cr Cred, s []string) string {
@@ -1001,6 +1009,8 @@ func main() {
 		cmdRun(os.Args[2:])
 	case "blackbox":
 		cmdBlackbox(os.Args[2:])
+	case "serve-standalone":
+		cmdServeStandalone(os.Args[2:])
 	default:
 		fail("unknown command " + os.Args[1])
 	}
